@@ -50,8 +50,8 @@ MANIFEST = {
     "text": ("Coq theorems: for each of the 20 integer mappings (table translated from the source on every run) parse accepts "
              "exactly the integer Numbers in the Rust type's range (non-zero for NonZero types), never panics, and "
              "parse(to_value x) = x for every x of the type; the same two shapes for bool, String, char, ID and derived enums; "
-             "finite floats round-trip; known findings (f32 accepts out-of-range numbers as infinity, ID rejects integers above "
-             "i64::MAX, non-finite floats serialise to null) are refuted theorems with the property proved outside those classes."),
+             "finite floats round-trip; known findings (f32 accepts out-of-range numbers as infinity, non-finite floats serialise to null; "
+             "repaired: ID accepts every integer) are refuted theorems with the property proved outside those classes."),
     "note": ("trusted: Coq kernel, intscalar translator, harness printers, sampled agreement model vs code; "
              "all theorems closed under the global context (no axioms, no Flocq)"),
 }
